@@ -593,6 +593,9 @@ pub fn convert<W: std::io::Write + Send + 'static>(
     // The 10ms time is a bit arbitrary and we might need to find an algorithm to calculate the optimal time (e.g. 1/4 of the time it took to fill the buffer).
 
     // setup (thread) filter chain:
+    // verification hook (feature adlt_verif): channel capacities from env ADLT_VERIF_CHANNEL_CAP
+    #[cfg(feature = "adlt_verif")]
+    let sync_channel = |default: usize| std::sync::mpsc::sync_channel(crate::chan_cap(default));
     let (tx_for_parse_thread, rx_from_parse_thread) = sync_channel(1024 * 1024); // msg -> parse_lifecycles (t2)
     let (tx_for_lc_thread, rx_from_lc_thread) = sync_channel(512 * 1024); // parse_lifecycles -> buffer_sort_messages (t3)
     let (lcs_r, lcs_w) = evmap::Options::default()
